@@ -129,6 +129,47 @@ def make_triggers(tables):
             "symmetry_arrives_and_slot_lost": symmetry_arrives_and_slot_lost}
 
 
+def confirm_c01(findings, tables):
+    """False-alarm discipline for C01 (DESIGN 3.3): an alarm "reported equal but not implied" is
+    only kept if the implementation cannot PROVE the equality: the history is rebuilt in the
+    explanations build, explain_equivalence is asked for the pair and the proof DAG is checked by
+    Proofs.tla.  A proof that checks shows the equality is derivable (the bounded closure of the
+    specification was incomplete for this history): the alarm is dropped and counted."""
+    byu = {}
+    for f in findings:
+        if "pair" in f.get("detail", {}) and f["universe"] in tables:
+            k = (f["universe"], json.dumps(f["key"]), json.dumps(f["detail"]["pair"]))
+            byu.setdefault(f["universe"], {}).setdefault(k, f)
+    verdict = {}
+    for u, reps in byu.items():
+        reps = dict(list(reps.items())[:40])
+        upath = tables[u][4]
+        d = os.path.dirname(upath)
+        fpath = os.path.join(d, "c01_confirm.json")
+        json.dump([{"path": f["path"], "step": f["step"], "naming": f["naming"], "pair": f["detail"]["pair"]} for f in reps.values()],
+                  open(fpath, "w"))
+        trace = os.path.join(d, "c01_confirm.ndjson")
+        run_bin("expl", "ex_confirm", [upath, fpath, trace])
+        cfg = open(os.path.join(SPEC, "TraceProofs.cfg")).read()
+        logp, st = run_tlc_root("C01_confirm_" + u, "TraceProofs", {}, cfg, workers=1, env={"VERIF_TRACE": trace}, xss=True, deque=True)
+        if not st["ok"]:
+            raise ToolError("TraceProofs failed while confirming C01 alarms")
+        bad = {b["i"] for b in tlcout.tagged_lines(logp, "PROOFBAD")}
+        for n, k in enumerate(reps.keys()):
+            verdict[k] = (n + 1) not in bad        # True = a valid proof exists
+    kept, refuted = [], 0
+    for f in findings:
+        k = (f["universe"], json.dumps(f["key"]), json.dumps(f.get("detail", {}).get("pair")))
+        if verdict.get(k):
+            refuted += 1
+            if refuted <= 3:
+                log("C01 alarm refuted by a checked proof (bounded closure incomplete for this history): %s %s" %
+                    (f["universe"], json.dumps(f["detail"])[:200]))
+        else:
+            kept.append(f)
+    return kept, refuted
+
+
 def run_cc(prop, tier):
     t0 = time.time()
     variants = ["default", "checks"] if prop == "C08" else ["default"]
@@ -149,6 +190,9 @@ def run_cc(prop, tier):
                     findings.append(r)
     mine = [f for f in findings if f["prop"] == prop]
     extra_cov = {}
+    if prop == "C01" and mine:
+        mine, refuted = confirm_c01(mine, tables)
+        extra_cov = {"c01_alarms_refuted_by_checked_proof": refuted}
     if prop == "C08":
         import rw
         bad8, panics8, st8, summ8, lines8 = rw.rw_trace(tier, "C08", 3)
